@@ -190,12 +190,19 @@ class StubGSS:
 
 # ----------------------------------------------------------------------------- scheduled server application
 
+NO_USER = "\x00none"       # callback saw username None (distinct from the empty user name)
+# callback results that are none of AUTH_SUCCESSFUL / AUTH_PARTIALLY_SUCCESSFUL / AUTH_FAILED (and not equal to one:
+# False, 0 and 0.0 == AUTH_SUCCESSFUL)
+JUNK = [lambda: None, lambda: 3, lambda: -1, lambda: "ok", lambda: object()]
+
+
 class SchedServer(LogServer):
     """ServerInterface whose credential checks return what the driver planned for the current step"""
     def __init__(self, gss=False, allowed="password,publickey,keyboard-interactive"):
         super().__init__(allowed=allowed)
         self.plan = "fail"       # result of the credential check of the message being handled
         self.offered = "usual"   # what get_allowed_auths() returns while that message is handled
+        self.junk = 0            # which non-constant value a "junk" result is
         self.msg = -1            # index (in the server's inbound message log) of the message being handled
         self.gss = gss
         self.calls = []          # (message index, {name, user, res}) for every credential callback
@@ -204,8 +211,10 @@ class SchedServer(LogServer):
         res = self.plan
         if res == "query" and not interactive:
             res = "fail"
-        rec = {"name": name, "user": "" if username is None else username, "res": res}
+        rec = {"name": name, "user": NO_USER if username is None else username, "res": res}
         self.calls.append((self.msg, rec))
+        if res == "junk":
+            return JUNK[self.junk % len(JUNK)]()
         if res == "query":
             q = paramiko.InteractiveQuery("verif", "answer", ("token? ", False))
             return q
@@ -336,7 +345,7 @@ class AuthSession:
         idx = self._nin() - 1
         self.marks[idx] = self.sample()
         self.server.msg = idx
-        self.server.plan, self.server.offered = self.plans.get(idx, ("fail", "usual"))
+        self.server.plan, self.server.offered, self.server.junk = self.plans.get(idx, ("fail", "usual", 0))
         if self.opts["bound"]:
             self._bind_gss_handler()
 
@@ -519,7 +528,7 @@ class AuthSession:
             for i, r in enumerate(reqs):
                 ok = self.tc.is_active()
                 if ok:
-                    self.plans[base + len([x for x in sent if x])] = (clean(r)["cb"], clean(r)["allowed"])
+                    self.plans[base + len([x for x in sent if x])] = (clean(r)["cb"], clean(r)["allowed"], int(r.get("junk", 0)))
                     try:
                         self.tc._send_message(self.render(r, names))
                     except Machinery:
@@ -618,7 +627,7 @@ def clean(req):
     return r
 
 
-DEFAULT_NAMES = {"user": {"alice": "alice", "eve": "eve"}, "service": "ssh-userauth", "bogus": "hostbased",
+DEFAULT_NAMES = {"user": {"alice": "alice", "eve": "eve", "anon": ""}, "service": "ssh-userauth", "bogus": "hostbased",
                  "password": "pw", "pk": "rsa/rsa-sha2-512"}
 
 
@@ -664,7 +673,7 @@ def real_other_session_id():
 from harness.core import cfg_text  # noqa: E402
 
 TOGGLES = {"GssHonoursCallback": True, "BlobOmits": "", "KeepsResultAfterBadSig": False, "KeepsResultOnForeignLabel": False,
-           "RekeyResetsAuthState": False, "PkOkCachesApproval": False, "EmptyListPromotesPartial": False,
+           "RekeyResetsAuthState": False, "PkOkCachesApproval": False, "EmptyListPromotesPartial": False, "OnlyConstantsReject": False, "UnpinnedUser": "",
            "ServiceRequestResets": False,
            "ProbeAuthenticates": False, "PinsUser": True, "PartialCounts": False, "CapOffset": 0}
 ALL_CONFIGS = {"plain", "gss", "gss+ctx", "gss+bound", "gss+ctx+bound"}
@@ -735,6 +744,7 @@ def step_method(req, mode):
 def abstract_users(trace, names):
     """callback logs carry the rendered user names: map them back to the specification's names"""
     back = {v: k for k, v in names["user"].items()}
+    back[NO_USER] = ""
     for s in trace["steps"]:
         for cb in s["cbs"]:
             cb["user"] = back.get(cb["user"], cb["user"])
@@ -845,7 +855,7 @@ def random_job(rnd, length, p, tag):
     p: probabilities {ok, switch, service, gss}"""
     cfg = rnd.choice(sorted(ALL_CONFIGS)) if rnd.random() < p.get("gss", 0.5) else "plain"
     ua, ue = rnd.choice(USER_NAMES)
-    names = {"user": {"alice": ua, "eve": ue}, "service": rnd.choice(SERVICES), "bogus": rnd.choice(BOGUS),
+    names = {"user": {"alice": ua, "eve": ue, "anon": ""}, "service": rnd.choice(SERVICES), "bogus": rnd.choice(BOGUS),
              "password": rnd.choice(["pw", "", "päss", "x" * 300]), "pk": rnd.choice(sorted(PK_VARIANTS))}
     seq = []
     for _ in range(length):
@@ -856,7 +866,7 @@ def random_job(rnd, length, p, tag):
         if rnd.random() < p.get("service_request", 0.08):
             seq.append({"k": "service_request", "service": "other" if rnd.random() < 0.05 else "ssh-userauth"})
         if x < 0.70:
-            user = "eve" if rnd.random() < p.get("switch", 0.02) else "alice"
+            user = "eve" if rnd.random() < p.get("switch", 0.02) else "anon" if rnd.random() < p.get("anon", 0.03) else "alice"
             service = "other" if rnd.random() < p.get("service", 0.02) else "ssh-connection"
             method = rnd.choice(["none", "password", "password", "publickey", "publickey", "publickey",
                                  "keyboard-interactive", "bogus", "gssapi-keyex", "gssapi-with-mic"])
@@ -881,6 +891,9 @@ def random_job(rnd, length, p, tag):
             seq.append({"k": "gss_token", "tok": rnd.choice(["more", "done", "done", "error"]), "cb": cb})
         else:
             seq.append({"k": "gss_mic", "mic": rnd.choice(MIC_KINDS + ["good", "good"]), "cb": cb})
+    for q in seq:       # a callback that returns none of the three constants
+        if q["k"] in ("request", "info_response", "gss_mic") and q.get("cb") in ("fail", "partial") and rnd.random() < p.get("junk", 0.06):
+            q["cb"], q["junk"] = "junk", rnd.randrange(len(JUNK))
     for q in seq:       # what the application offers as "methods that can continue" while it answers
         if q["k"] in ("request", "info_response", "gss_mic") and rnd.random() < p.get("odd_list", 0.25):
             q["allowed"] = rnd.choice(["empty", "without"])
